@@ -490,3 +490,108 @@ func (r *run) playRandom(g *vc.Rng, profile string) {
 		}
 	}
 }
+
+// ---- registry sweep (profile c16r) -----------------------------------------------------------------
+
+const regChunk = 300 // objects per schedule: two connections of 150
+
+// registrySchedules: arg "all" = every registered constructor in three variants (random / all conditional fields
+// absent / all present) and every enum id; "all1" = every constructor once, the variant drawn by the seed, and
+// every enum id; arg N = a sample of N of them, drawn by the seed.
+func registrySchedules(arg string, seed uint64) []script {
+	g := vc.NewRng(seed ^ 0xc16e9)
+	var items []regItem
+	if arg == "all" {
+		items = regItems(3)
+	} else if arg == "all1" {
+		items = regItems(1)
+		for i := range items {
+			if items[i].op == "reg" {
+				items[i].variant = g.Intn(3)
+			}
+		}
+	} else {
+		items = regItems(1)
+		for i := range items {
+			if items[i].op == "reg" {
+				items[i].variant = g.Intn(3)
+			}
+		}
+	}
+	for i := len(items) - 1; i > 0; i-- {
+		j := g.Intn(i + 1)
+		items[i], items[j] = items[j], items[i]
+	}
+	if arg != "all" && arg != "all1" {
+		n := 0
+		fmt.Sscanf(arg, "%d", &n)
+		if n < len(items) {
+			items = items[:n]
+		}
+	}
+	// most objects go the default way (no handler: reflect type name + warnError); one schedule in six each for an
+	// accepting handler and for a declining one followed by an accepting one
+	warns := []int{64, -1, 2, 64, -2, 1}
+	handlers := []int{0, 0, 2, 1, 0, 3}
+	var out []script
+	for i := 0; i*regChunk < len(items); i++ {
+		hi := (i + 1) * regChunk
+		if hi > len(items) {
+			hi = len(items)
+		}
+		out = append(out, script{idx: i, ncallers: 1, desc: "registry-sweep",
+			cfg: config{warnCap: warns[i%len(warns)], handler: handlers[i%len(handlers)]}, items: items[i*regChunk : hi]})
+	}
+	return out
+}
+
+// playRegistry sends every item as an update with an odd seq_no: plain; every 10th inside a container with the
+// result of a pending call behind it; every 25th gzip-packed; a probe call every 50 objects; one orderly close in
+// the middle. After each message everything that is enabled runs, so a stall or a death is tied to one object.
+func (r *run) playRegistry(items []regItem) {
+	nextSid := int64(0)
+	sid := func() int64 { nextSid += 4; return nextSid + 3 }
+	tok := int64(r.idx%1000)*1000 + 10
+	send := func(s int64, seq int32, b *bodySpec) {
+		r.slog(fmt.Sprintf("srv %d %d %s", s, seq, b.script()))
+		r.doSrv(s, seq, b)
+		r.slog("settle")
+		r.runEnabled()
+	}
+	for i, it := range items {
+		b := &bodySpec{op: it.op, crc: it.crc, n: it.variant}
+		seq := int32(2*(i%40)) | 1
+		switch {
+		case i%10 == 9:
+			c := r.callers[0]
+			if c.active == nil {
+				tok += 3
+				r.slog(fmt.Sprintf("call 0 obj 0 %d", tok))
+				r.doCall(0, callSpec{kind: "obj", token: tok})
+				r.slog("settle")
+				r.runEnabled()
+			}
+			cs := c.active
+			top := &bodySpec{op: "cont"}
+			top.items = append(top.items, itemSpec{sid: sid(), seq: seq, body: b})
+			if cs != nil && cs.frame >= 0 && cs.answers == 0 {
+				top.items = append(top.items, itemSpec{sid: sid() - 2, seq: 3, body: &bodySpec{op: "res", ref: fmt.Sprintf("@0.%d", cs.k), kind: "obj", tok: cs.spec.token}})
+			}
+			send(sid(), 2, top)
+		case i%25 == 24:
+			send(sid(), seq, &bodySpec{op: "gz", inner: b})
+		default:
+			send(sid(), seq, b)
+		}
+		if i%50 == 49 {
+			r.slog("probe")
+			r.probe()
+		}
+		if i == len(items)/2 && len(items) >= 100 && r.canClose() {
+			r.slog("close")
+			r.doClose()
+			r.slog("settle")
+			r.runEnabled()
+		}
+	}
+}
